@@ -19,6 +19,18 @@ type c08Input struct {
 	Tables     mp4synth.Tables `json:"tables"`
 	Valid      bool            `json:"valid"`
 	Kind       string          `json:"kind"`
+	Reuse      bool            `json:"reuse,omitempty"` // decode with a Decoder value that has decoded another file before
+}
+
+// warmFile: a fixed valid file (3 samples, 2 readings each, 1 s per sample) decoded first by a reused Decoder.
+func warmFile() []byte {
+	r := &Rng{s: 12345}
+	p, t := genValidLayout(r, 4)
+	f, _, err := mp4synth.Build(p, t)
+	if err != nil {
+		panic(err)
+	}
+	return f
 }
 
 func sensorPayload(r *Rng) []byte {
@@ -189,7 +201,13 @@ func addC08Case(ctx *Ctx, in c08Input) {
 	var msg string
 	go func() {
 		defer close(done)
-		panicked, msg = Guard(func() { els, derr = gpmf.NewDecoder().Decode(bytes.NewReader(file)) })
+		panicked, msg = Guard(func() {
+			dec := gpmf.NewDecoder()
+			if in.Reuse {
+				_, _ = dec.Decode(bytes.NewReader(warmFile()))
+			}
+			els, derr = dec.Decode(bytes.NewReader(file))
+		})
 	}()
 	class, detail := 0, ""
 	select {
@@ -231,7 +249,7 @@ func addC08Case(ctx *Ctx, in c08Input) {
 	b, _ := json.Marshal(in)
 	ctx.Add(Case{Coq: coq, Input: in, Obs: map[string]any{"class": class, "detail": detail, "elements": len(els)}, Key: string(b),
 		Trivial: in.Tables.NSamples == 0,
-		Tags:    []string{"kind:" + in.Kind, fmt.Sprintf("class:%d", class), fmt.Sprintf("samples:%d", in.Tables.NSamples), fmt.Sprintf("chunks:%d", len(in.Tables.Offsets)), fmt.Sprintf("timescale:%d", in.Tables.Timescale)}})
+		Tags:    []string{"kind:" + in.Kind, fmt.Sprintf("class:%d", class), fmt.Sprintf("samples:%d", in.Tables.NSamples), fmt.Sprintf("chunks:%d", len(in.Tables.Offsets)), fmt.Sprintf("timescale:%d", in.Tables.Timescale), fmt.Sprintf("reused-decoder:%v", in.Reuse)}})
 }
 
 func mutateTables(r *Rng, t mp4synth.Tables) mp4synth.Tables {
@@ -296,19 +314,19 @@ func runC08(ctx *Ctx) error {
 	r := ctx.R
 	for i := 0; i < ctx.N(200, 4000); i++ {
 		p, t := genValidLayout(r, map[bool]int{false: 6, true: 9}[ctx.Thorough()])
-		addC08Case(ctx, c08Input{hex.EncodeToString(p), t, true, "valid-layout"})
+		addC08Case(ctx, c08Input{hex.EncodeToString(p), t, true, "valid-layout", r.Chance(0.3)})
 	}
 	// no metadata track / other handler names
 	p, t := genValidLayout(r, 3)
 	t2 := t
 	t2.NoMeta = true
-	addC08Case(ctx, c08Input{hex.EncodeToString(p), t2, true, "no-meta-track"})
+	addC08Case(ctx, c08Input{hex.EncodeToString(p), t2, true, "no-meta-track", false})
 	t3 := t
 	t3.Name = "\tGoPro TCD"
-	addC08Case(ctx, c08Input{hex.EncodeToString(p), t3, true, "other-handler-name"})
+	addC08Case(ctx, c08Input{hex.EncodeToString(p), t3, true, "other-handler-name", false})
 	t4 := t
 	t4.Handler = "soun"
-	addC08Case(ctx, c08Input{hex.EncodeToString(p), t4, true, "other-handler-type"})
+	addC08Case(ctx, c08Input{hex.EncodeToString(p), t4, true, "other-handler-type", false})
 	// hostile tables (the decoder half of C09): an error or a tree, never a crash or hang
 	for i := 0; i < ctx.N(150, 6000); i++ {
 		p, t := genValidLayout(r, 5)
@@ -319,7 +337,7 @@ func runC08(ctx *Ctx) error {
 		if r.Chance(0.2) {
 			p = mutateBytes(r, p)
 		}
-		addC08Case(ctx, c08Input{hex.EncodeToString(p), m, false, "hostile-tables"})
+		addC08Case(ctx, c08Input{hex.EncodeToString(p), m, false, "hostile-tables", r.Chance(0.2)})
 	}
 	return nil
 }
